@@ -29,6 +29,10 @@ mod u7 {
         StructArr,  // struct{array[scalar;1], scalar}
         NestStruct, // struct{struct{scalar,scalar}, string}          depth 2, no array
         NestArr,    // array[array[scalar;1], array[scalar;1]]        depth 2
+        // records mixing scalar and heap fields in ONE struct
+        MixIntStr, // struct{scalar, string}
+        MixJob,    // struct{scalar, array[scalar;1], string}       (Job{id, items, label})
+        MixTuple,  // tuple{scalar, struct{string}}                  depth 2
     }
 
     /// symbolic leaves of a shape
@@ -69,8 +73,8 @@ mod u7 {
         match sh {
             Sh::Scalar => 0,
             Sh::Str0 | Sh::Str1 | Sh::Str2 | Sh::Struct2 | Sh::VarScalar | Sh::Arr(_) => 1,
-            Sh::StructStr | Sh::VarStruct | Sh::ArrStr | Sh::StructArr => 2,
-            Sh::NestStruct | Sh::NestArr => 3,
+            Sh::StructStr | Sh::VarStruct | Sh::ArrStr | Sh::StructArr | Sh::MixIntStr => 2,
+            Sh::NestStruct | Sh::NestArr | Sh::MixJob | Sh::MixTuple => 3,
         }
     }
 
@@ -120,6 +124,20 @@ mod u7 {
                 let a0 = b_arr(t, vec![lv.e[0]]);
                 let a1 = b_arr(t, vec![lv.e[1]]);
                 b_arr(t, vec![a0, a1])
+            }
+            Sh::MixIntStr => {
+                let x = b_str(t, vec![lv.s[0]]);
+                b_struct(t, vec![lv.e[0], x])
+            }
+            Sh::MixJob => {
+                let a = b_arr(t, vec![lv.e[1]]);
+                let x = b_str(t, vec![lv.s[0]]);
+                b_struct(t, vec![lv.e[0], a, x])
+            }
+            Sh::MixTuple => {
+                let x = b_str(t, vec![lv.s[0]]);
+                let inner = b_struct(t, vec![x]);
+                b_struct(t, vec![lv.e[0], inner])
             }
         }
     }
@@ -263,6 +281,24 @@ mod u7 {
                 let d1 = m_elems(d[1], h, 1);
                 assert!(d0[0] == lv.e[0] && d1[0] == lv.e[1], "leaves equal");
             }
+            Sh::MixIntStr => {
+                let f = m_fields(x, h, 2);
+                assert!(f[0] == lv.e[0], "scalar field equal");
+                m_str(f[1], h, &[lv.s[0]]);
+            }
+            Sh::MixJob => {
+                let f = m_fields(x, h, 3);
+                assert!(f[0] == lv.e[0], "scalar field equal");
+                let d = m_elems(f[1], h, 1);
+                assert!(d[0] == lv.e[1], "array element equal");
+                m_str(f[2], h, &[lv.s[0]]);
+            }
+            Sh::MixTuple => {
+                let f = m_fields(x, h, 2);
+                assert!(f[0] == lv.e[0], "scalar field equal");
+                let g = m_fields(f[1], h, 1);
+                m_str(g[0], h, &[lv.s[0]]);
+            }
         }
     }
 
@@ -333,6 +369,24 @@ mod u7 {
                 let a1 = m_elems(x, &h, 2)[1];
                 set_index(t, a1, 0, nv);
                 assert!(m_elems(a1, &h, 1)[0] == nv);
+                true
+            }
+            Sh::MixIntStr => {
+                set_field(t, x, 0, nv);
+                assert!(m_fields(x, &h, 2)[0] == nv);
+                true
+            }
+            Sh::MixJob => {
+                let a = m_fields(x, &h, 3)[1];
+                array_push(t, a, nv);
+                set_index(t, a, 0, nv);
+                assert!(m_elems(a, &h, 2)[0] == nv && m_elems(a, &h, 2)[1] == nv);
+                true
+            }
+            Sh::MixTuple => {
+                let inner = m_fields(x, &h, 2)[1];
+                set_field(t, inner, 0, nv);
+                assert!(m_fields(inner, &h, 1)[0] == nv);
                 true
             }
         }
@@ -485,6 +539,16 @@ mod u7 {
         }
         assert!(nt.heap_list.len() == want_nodes && disjoint(&nt.heap_list, &a.heap_list), "the task has its own heap");
         assert!(nt.heap_size == heap_bytes(&nt.heap_list));
+        // a mutation made inside the task (real arms, on the task's thread) is invisible to the spawner
+        let mut nt = nt;
+        if n > 0 {
+            let nv = sc(ValueTag::Int);
+            kani::assume(nv != lv[0].e[0] && nv != lv[0].e[1]);
+            let c0 = nt.value_stack[0];
+            if poke(s[0], c0, &mut nt, &lv[0], nv) {
+                expect(s[0], v[0], &lv[0], &a.heap_list);
+            }
+        }
         kani::cover!(true, "reachable");
         std::mem::forget(a);
         std::mem::forget(nt);
@@ -611,6 +675,12 @@ mod u7 {
         assert!(same_list(&a.heap_list, &a_heap0) && a.value_stack.len() == 1 && quiet(&a));
         expect(s1, v1, &l1, &a.heap_list);
         expect(s2, v2, &l2, &a.heap_list);
+        // a mutation of the received value (real arms, on the reader) is invisible to the writer
+        let nv = sc(ValueTag::Int);
+        kani::assume(nv != l1.e[0] && nv != l1.e[1]);
+        if poke(s1, r1, &mut b, &l1, nv) {
+            expect(s1, v1, &l1, &a.heap_list);
+        }
         kani::cover!(true, "reachable");
         std::mem::forget(a);
         std::mem::forget(b);
@@ -786,17 +856,23 @@ mod u7 {
     inst!(copy_struct_arr, copy_post(Sh::StructArr, IF));
     inst!(copy_nest_struct, copy_post(Sh::NestStruct, IF));
     inst!(copy_nest_arr, copy_post(Sh::NestArr, IF));
+    inst!(copy_mix_int_str, copy_post(Sh::MixIntStr, IF));
+    inst!(copy_mix_job, copy_post(Sh::MixJob, IF));
+    inst!(copy_mix_tuple, copy_post(Sh::MixTuple, BA));
 
     inst!(spawn_0, spawn_case(0, [Sh::Scalar, Sh::Scalar]));
     inst!(spawn_scalar_struct_str, spawn_case(2, [Sh::Scalar, Sh::StructStr]));
     inst!(spawn_str_struct, spawn_case(2, [Sh::Str1, Sh::Struct2]));
     inst!(spawn_var_scalar, spawn_case(2, [Sh::VarStruct, Sh::Scalar]));
+    inst!(spawn_mix_job, spawn_case(1, [Sh::MixJob, Sh::Scalar]));
     inst!(spawn_arr_str, spawn_case(2, [Sh::Arr(1), Sh::Str1]));
 
     inst!(fifo_one_scalar, fifo_one(Sh::Scalar, Sh::Scalar));
     inst!(fifo_one_str_struct, fifo_one(Sh::Str1, Sh::Struct2));
     inst!(fifo_two_scalar, fifo_two(Sh::Scalar, Sh::Scalar));
     inst!(fifo_two_str_struct, fifo_two(Sh::Str1, Sh::Struct2));
+    inst!(fifo_two_mix_job, fifo_two(Sh::MixJob, Sh::Scalar));
+    inst!(fifo_one_mix_tuple, fifo_one(Sh::MixTuple, Sh::MixIntStr));
     inst!(fifo_two_arr, fifo_two(Sh::Arr(1), Sh::Scalar));
 
     inst!(ownership_drop_str, ownership_drop(Sh::Str1));
